@@ -222,7 +222,7 @@ def replay_one(ctx, ws, path):
     if rej:
         ctx.violation("log of the replayed connection rejected by Trace_WsEndpoint at event %s: %s" % (rej[0]["at"], rej[0]["ev"]),
                       {"kind": "ws-trace", "case": r["case"], "rejected": rej[0], "ev": r["ev"]})
-    ctx.cov["distinct_nontrivial"] = 2 if nontrivial(c) else 0
+    ctx.cov["distinct_nontrivial"] = 1 if nontrivial(c) else 0
     ctx.cov["rule"] = "single connection re-run from a replay file"
     return ctx.finish()
 
